@@ -187,7 +187,8 @@ def monStep (g : Graph) (defs : Nat → TaskDef) (ck : Checker) (dflt : Option (
     let hard := ignClosure g defs gh.1.marks
     let soft := g.names.filter fun t => (g.setup t).any fun d => hard.contains d
     (gh, Json.mkObj [("ign_hard", ofNats (Driver.Status.sortNats hard.eraseDups)), ("ign_setup", ofNats soft),
-                     ("marks", ofNats (Driver.Status.sortNats gh.1.marks.eraseDups))])
+                     ("marks", ofNats (Driver.Status.sortNats gh.1.marks.eraseDups)),
+                     ("hard_deps", mkArr (g.names.map fun t => ofNats (hardDeps g defs t)))])
   | some (.reset names) =>
     match firstUnknown g names with
     | some n => (gh, Json.mkObj [("unknown", toJson n)])
